@@ -76,6 +76,10 @@ pub struct Script {
     pub started: BTreeMap<usize, PeerId>,
     /// woken whenever a call is recorded (SimNet's pump)
     pub call_waker: Option<Waker>,
+    /// SimNet fault: while set, outbound substream opens of this node's connections do not start (the stream's
+    /// negotiation is "slow": a busy remote, a long round trip); waiters are woken when the hold is lifted
+    pub hold_opens: bool,
+    pub hold_wakers: Vec<Waker>,
 }
 
 #[derive(Clone)]
@@ -97,7 +101,34 @@ impl ScriptHandle {
             auto_accept: false,
             started: BTreeMap::new(),
             call_waker: None,
+            hold_opens: false,
+            hold_wakers: Vec::new(),
         })))
+    }
+
+    /// SimNet fault: hold (true) or release (false) the outbound substream opens of this node
+    pub fn set_hold_opens(&self, hold: bool) {
+        let mut s = self.0.lock();
+        s.hold_opens = hold;
+        if !hold {
+            for w in s.hold_wakers.drain(..) {
+                w.wake();
+            }
+        }
+    }
+
+    /// resolves once outbound opens are not held
+    pub fn opens_released(&self) -> impl std::future::Future<Output = ()> + Send + 'static {
+        let me = self.clone();
+        std::future::poll_fn(move |cx| {
+            let mut s = me.0.lock();
+            if s.hold_opens {
+                s.hold_wakers.push(cx.waker().clone());
+                std::task::Poll::Pending
+            } else {
+                std::task::Poll::Ready(())
+            }
+        })
     }
 
     /// factory to pass to `ConfigBuilder::with_verif_transport`
